@@ -16,6 +16,7 @@ func verifExpectBlock(mode int)
 func verifBlockForever()
 func verifQuiesce()
 func verifLiveThreads() int
+func verifAssertNoLiveThreads(label string)
 func verifAdvanceTime()
 func verifSymbolicClock()
 func verifHelperExit(code int)
